@@ -113,6 +113,7 @@ func TestC01(t *testing.T) {
 	r := newRun(t, "C01", "exploration")
 	defer r.Finish(t)
 	r.Rule = "cases = generated scenarios for {v2, v1, v2 simple, v1 Simple}: 1..5 priorities from small/dense/skewed/huge pools, Fair/Rate/custom sum-preserving dividers, H from the minimum the constructor accepts up to ~3x and some 64..700, input capacity 0/1/small/large, prefilled or written later; a single stepper goroutine in a synctest bubble plays a script (write, close, drain to quiescence WITHOUT releasing, release groups in random order/grouping, virtual sleeps, progress probes; v1 block: AddInput/RemoveInput/replace interleaved) against the real discipline and checks after every receive that received - release-started <= H; real-clock blocks: H real handler goroutines with random hold times (and v1 control calls from other goroutines) with an atomic counter incremented after each receive and decremented before each release. non-trivial = scenario in which held = H was reached; distinct by scenario fingerprint"
+	r.Rule += " | also: v1 configurations in which a priority gets no share (safety oracles only); one priority alone over its share whose input is closed and seen drained before the others get data; an unbuffered input closed while its items are held; a second consumer on one input; the caller rewriting its Inputs map after New"
 	r.Assumptions = []string{prioAssume}
 	r.Floor = 20
 	if replayPrio(t, r) {
@@ -162,6 +163,7 @@ func TestC02(t *testing.T) {
 	r := newRun(t, "C02", "exploration")
 	defer r.Finish(t)
 	r.Rule = "same scenario families as C01 (general block and the v1 AddInput/RemoveInput block, where channels that were closed and drained are also replaced); every written item carries (priority, channel, sequence number); single observer of the output: tag = priority of the item's channel, sequence number = next expected of that channel, nothing that was not written; at termination (epilogue closes all inputs and releases everything) the received set equals the written set; simple disciplines: every Handle argument exactly once; real-clock block with H concurrent handlers: exactly-once, tags, and per-priority order decided on receive intervals (if a was written before b on one input, the receive of b must not have returned before the receive of a was called). non-trivial = scenario that terminated normally with >= 2 priorities having carried >= 2 items each; distinct by scenario fingerprint"
+	r.Rule += " | also: a second consumer on one input (what it takes is booked as read exactly once elsewhere); the caller rewriting its Inputs map after New; v1 without share; a priority whose share appears when another one is removed"
 	r.Assumptions = []string{prioAssume}
 	r.Floor = 20
 	if replayPrio(t, r) {
@@ -219,6 +221,7 @@ func TestC05(t *testing.T) {
 	r := newRun(t, "C05", "exploration")
 	defer r.Finish(t)
 	r.Rule = "saturation scenarios for {v2, v1, simple variants}: every input buffered and prefilled before New with enough items that it never runs empty; shares are obtained by calling the configured divider itself on (sorted priorities, H); the oracle is armed only while every input still holds >= H + cap(output) + 1 undelivered items; after every receive held_p <= share_p; at every checkpoint (release groups issued: one at a time / whole priority / all but one / random groups / two groups in a row, then drained) full occupation is awaited (bounded, fake clock) and then held_p = share_p for every p. non-trivial = >= 2 priorities and >= 5 release groups inside the window with >= 3 checkpoints passed; distinct by scenario fingerprint"
+	r.Rule += " | also: small buffers (capacity 1..3) kept full by parked writers; v1 scripts with AddInput of the same channel and RemoveInput of a saturated input (the refill under the new shares is judged); real-clock block: one-shot senders verified parked before creation, per-priority in-flight <= share after every receive"
 	r.Assumptions = []string{prioAssume}
 	r.Floor = 20
 	if replayPrio(t, r) {
@@ -283,6 +286,7 @@ func TestC06(t *testing.T) {
 	r := newRun(t, "C06", "exploration")
 	defer r.Finish(t)
 	r.Rule = "bounded progress on the fake clock (L = 50us virtual, about 1000 scheduler rounds), Fair and Rate only, all H the constructor accepts incl. the exact minimum and skewed sets (e.g. {1000,1}), unbuffered inputs, inputs closing at different times, delayed/batched releases: (a) probe: nothing in flight, every release consumed, some input holds an undelivered item => an item is received within L with no release; (b) probe: a priority that alone has >= H items already buffered occupies all H handlers within L with no release; (b') lone-burst probe: from the empty state one priority alone gets data in several bursts (buffered or unbuffered) with no release - while fewer than H of its items are in flight and one is waiting, the next must arrive within L, unless the documented wait applies (it is above its share and the divider cannot give every other priority one of the vacant handlers); (c) epilogue: handlers release everything at once => every written item is received (each within L of the previous) and the discipline terminates. A busy loop is caught by the real-time watchdog (stack samples). non-trivial = scenario with >= 1 probe evaluated and normal termination; distinct by scenario fingerprint"
+	r.Rule += " | also: the v1 add / replace / remove block; a normal termination with undelivered written items is a finite refutation"
 	r.Assumptions = []string{prioAssume, "unbounded 'eventually' is restated as progress within L virtual nanoseconds"}
 	r.Floor = 20
 	if replayPrio(t, r) {
@@ -321,6 +325,7 @@ func TestC07(t *testing.T) {
 	r := newRun(t, "C07", "exploration")
 	defer r.Finish(t)
 	r.Rule = "termination scenarios for all four variants: inputs closed in every order, interleaved with drains; then either one release is withheld, or one idle input is kept open, for 0.2..5us virtual while the channels are observed at quiescent points (closure there = early termination), or the last items stay unread; then everything is released / closed and closure of Err() (and Output() for v2, return of GracefulStop for v1) is awaited within L = 50us virtual; never-early conditions are evaluated at the instant a closure is observed: every input closed by the harness, every written item received, every received item release-started, (simple) every Handle call returned; every value read from Err() must be nil; a v1 block repeats this across AddInput / replacement (also of closed and drained channels) / RemoveInput; a block for the simple disciplines ends them by Stop / cancel / divider error while Handle calls are running (Handle takes 0..300ns virtual to return after its context is cancelled) and requires entered = returned at the instant Err() is seen closed. non-trivial = normal termination observed after >= 1 hold observation, or (blocks 2, 3) a terminated scenario with control calls / items in flight; distinct by scenario fingerprint"
+	r.Rule += " | also: v1 without share (never-early oracles only); an input that is a nil channel; idle periods much longer than the progress window; AddInput followed at once by GracefulStop() with a divider that takes its time"
 	r.Assumptions = []string{prioAssume}
 	r.Floor = 20
 	if replayPrio(t, r) {
